@@ -234,7 +234,7 @@ impl Property for C19 {
     }
     fn rule(&self, tier: Tier) -> String {
         format!(
-            "(1) All step sequences of length 0..{} over an alphabet of {} steps (inferences with premises {{[], [l], [l,l,l]}} x conclusion {{none, l}} x tag {{none, 1, u32::MAX}} x label {{none, a, _x9}}; nogoods with literals {{[], 1, 2, 3 literals}} x hints {{None, Some([]), Some([1]), Some([1,2]), Some([u64::MAX])}}; deletions) followed by {{nothing, UNSAT, optimal(l)}}, literal codes from {:?}: written with ProofWriter (text format), read with ProofReader, compared step by step (ids, premises, conclusion, tag, label, hints incl. None vs Some([])). (2) all literal-definition files with <=2 codes x <=2 atomics each from an alphabet of {} atomics (3 identifiers x 4 comparisons x 7 values incl. i64::MIN/MAX, booleans): write -> parse -> equal. (3) double negation of every atomic. A case = one sequence / definition set / atomic; non-trivial = at least one step or definition.",
+            "(1) All step sequences of length 0..{} over an alphabet of {} steps (inferences with premises {{[], [l], [l,l,l]}} x conclusion {{none, l}} x tag {{none, 1, u32::MAX}} x label {{none, a, _x9}}; nogoods with literals {{[], 1, 2, 3 literals}} x hints {{None, Some([]), Some([1]), Some([1,2]), Some([u64::MAX])}}; deletions) followed by {{nothing, UNSAT, optimal(l)}}, literal codes from {:?}: written with ProofWriter (text format), read with ProofReader, compared step by step (ids, premises, conclusion, tag, label, hints incl. None vs Some([])). (2) all literal-definition files with <=2 codes x <=2 atomics each from an alphabet of {} atomics (3 identifiers x 4 comparisons x 7 values incl. i64::MIN/MAX, booleans): write -> parse -> equal. (3) double negation of every atomic. (4) for every atomic a proof using its code in both polarities is read back with the parsed literal definitions as the literal map and must mention the atomic / its negation. A case = one sequence / definition set / atomic; non-trivial = at least one step or definition.",
             if tier.quick() { 2 } else { 3 },
             step_alphabet(tier).len(),
             CODES,
@@ -373,6 +373,68 @@ impl Property for C19 {
                     });
                 }
             }
+        }
+        // (4) a proof read back through its literal definitions: for every atomic a, a proof that
+        // uses its code in both polarities (inference premise and conclusion, nogood literal,
+        // optimality conclusion) is written with the writer, the definitions are written and parsed,
+        // and the proof is read with the parsed definitions as the literal map: the steps must
+        // mention a where +code was written and the negation of a where -code was written
+        for (ai, a) in atoms.iter().enumerate() {
+            let my = idx;
+            idx += 1;
+            let other = atoms[(ai + 7) % atoms.len()].clone();
+            let desc = || format!("proof read through definitions 1 -> {other}, 2 -> {a}");
+            ctl.case(my, &desc, &mut |cx| {
+                cx.nontrivial = true;
+                let steps = [
+                    S::Inference { premises: vec![2, -1], propagated: Some(-2), tag: None, label: None },
+                    S::Nogood { literals: vec![-2, 1], hints: None },
+                ];
+                let refs: Vec<&S> = steps.iter().collect();
+                let (bytes, _) = match guard(|| write_sequence(&refs, &Some(S::Optimal(2)))) {
+                    Ok(Ok(x)) => x,
+                    Ok(Err(e)) => return cx.violation("writer-error", e),
+                    Err(e) => return cx.violation(format!("{}:write", panic_sig(&e)), e),
+                };
+                let mut ld = LiteralDefinitions::<String>::default();
+                ld.add(NonZeroU32::new(1).unwrap(), other.clone());
+                ld.add(NonZeroU32::new(2).unwrap(), a.clone());
+                let mut lits = vec![];
+                if let Err(e) = guard(|| ld.write(&mut lits)) {
+                    return cx.violation(format!("{}:lits-write", panic_sig(&e)), e);
+                }
+                let parsed = match guard(|| LiteralDefinitions::<String>::parse(lits.as_slice())) {
+                    Ok(Ok(p)) => p,
+                    Ok(Err(e)) => return cx.violation("lits-reader-rejects-writer-output", format!("{e:?}")),
+                    Err(e) => return cx.violation(format!("{}:lits-parse", panic_sig(&e)), e),
+                };
+                let na = !a.clone();
+                let no = !other.clone();
+                let read = guard(|| -> Result<Vec<Vec<AtomicConstraint<String>>>, String> {
+                    let mut r = ProofReader::new(bytes.as_slice(), parsed);
+                    let mut out = vec![];
+                    while let Some(step) = r.next_step().map_err(|e| format!("{e:?}"))? {
+                        out.push(match step {
+                            Step::Inference(i) => i.premises.iter().cloned().chain(i.propagated.clone()).collect(),
+                            Step::Nogood(n) => n.literals.to_vec(),
+                            Step::Delete(_) => vec![],
+                            Step::Conclusion(Conclusion::Unsatisfiable) => vec![],
+                            Step::Conclusion(Conclusion::Optimal(l)) => vec![l],
+                        });
+                    }
+                    Ok(out)
+                });
+                let expected = vec![vec![a.clone(), no.clone(), na.clone()], vec![na.clone(), other.clone()], vec![a.clone()]];
+                match read {
+                    Ok(Ok(got)) => {
+                        if got != expected {
+                            cx.violation("atomics-read-through-definitions-differ", format!("expected {expected:?}, read {got:?}"));
+                        }
+                    }
+                    Ok(Err(e)) => cx.violation("reader-rejects-writer-output", e),
+                    Err(e) => cx.violation(format!("{}:read-through-definitions", panic_sig(&e)), e),
+                }
+            });
         }
         // (3) double negation
         for a in &atoms {
